@@ -318,7 +318,16 @@ impl<'a> P<'a> {
     }
 }
 
+// A negative literal has no token of its own: it is written as a negation.
+fn normalise_negative_literals(h: &H) -> H {
+    crate::props::c08::map_h(h, &mut |x| match x {
+        H::Lit(v) if v.sign() == num_bigint::Sign::Minus => Some(H::Neg(crate::hast::hb(H::Lit(-v.clone())))),
+        _ => None,
+    })
+}
+
 pub fn print(h: &H, style: &Style, seed: u64) -> Printed {
+    let h = &normalise_negative_literals(h);
     let mut p = P {
         out: String::new(),
         prev: None,
